@@ -2,6 +2,7 @@ package props
 
 import (
 	"fmt"
+	"strings"
 	"time"
 
 	lib "github.com/corazawaf/libinjection-go"
@@ -26,7 +27,7 @@ var c09SQLSyms = []string{"'", "\"", "`", "\\", "$", "a", "1", "@", "/", "*", "-
 var c09HTMLSyms = []string{"<", ">", "/", "=", "'", "\"", "`", "!", "-", "?", "%", "]", "&", "#", ";", "x", "1", "a", " ", "\x00", "\t", "[",
 	"<!", "<!d", "<a", "<a ", "&#", "-->", "]]>", "%>", "href", "on", "\n"}
 var c09SQLOpeners = []string{"", "'", "\"", "/*", "$a$", "q'(", "@`", "1 ", "a", "1 union select "}
-var c09HTMLOpeners = []string{"", "<a ", "<a b='", "<!--", "<![CDATA[", "<%", "<a b=", "<!", "<a href=", "<a href=\"", "<a style='", "<a attributename="}
+var c09HTMLOpeners = []string{"", "<a ", "<a b='", "<!--", "<![CDATA[", "<%", "<a b=", "<!", "<a href=", "<a href=\"", "<a style='", "<a attributename=", "</a ", "</a x="}
 
 const c09PerByte = 2000
 const c09Const = 100000
@@ -58,6 +59,9 @@ func c09Work(sql bool, s string) (w int64, exceeded bool) {
 }
 
 // evalC09: input is the unit, aux = "sql|opener" or "html|opener".
+// tails: a second growing part after the repeated unit (cost that needs two things to grow together)
+var c09Tails = []string{"", " ", "\x00", ">", "a", "\n"}
+
 func evalC09(w *fw.W, unit, aux string) {
 	if !vrt.Instrumented() {
 		panic("C09 needs the instrumented build")
@@ -67,9 +71,21 @@ func evalC09(w *fw.W, unit, aux string) {
 	if !sql {
 		opener = aux[5:]
 	}
+	tail := ""
+	if i := strings.LastIndex(opener, "\x01"); i >= 0 {
+		tail, opener = opener[i+1:], opener[:i]
+	}
 	var works [3]int64
 	for i, n := range c09Lens {
 		s := alpha.Rep(opener, unit, "", n)
+		if tail != "" {
+			// half of the length goes to the repeated unit, half to the repeated tail byte; a single closing byte for ">"
+			if tail == ">" {
+				s = alpha.Rep(opener, unit, "", n-1) + ">"
+			} else {
+				s = alpha.Rep(opener, unit, "", n/2) + strings.Repeat(tail, n/2)
+			}
+		}
 		t0 := time.Now()
 		wk, exceeded := c09Work(sql, s)
 		el := time.Since(t0)
@@ -100,7 +116,7 @@ func init() {
 		ID:        "C09",
 		QuickS:    90,
 		ThoroughS: 900,
-		Rule: "every repetition family opener + unit^k for every unit over the 47 SQL / 33 HTML state-changing symbols and keyword/markup atoms of length <=2 (quick) / <=3 (thorough) x 10 (SQL) / 12 (HTML) openers, at 4 KB, 16 KB and 64 KB, through the auto-instrumented build: " +
+		Rule: "every repetition family opener + unit^k for every unit over the 47 SQL / 33 HTML state-changing symbols and keyword/markup atoms of length <=2 (quick) / <=3 (thorough) x 10 (SQL) / 14 (HTML) openers, at 4 KB, 16 KB and 64 KB, through the auto-instrumented build: " +
 			"deterministic work(64K) <= 6*work(16K) <= 36*work(4K) (linear = 4, quadratic = 16) and work <= 2000*|s| + 1e5 (enforced as a budget, so a blow-up stops early); wall-clock is recorded, never judged; every family is one state with three transitions",
 		Assumptions: []string{
 			"cost model: loop-body entries + function entries + bytes passed to strings/bytes functions + concatenation/conversion sizes; cost hidden inside == on long strings or inside strings.Builder methods is not charged",
@@ -114,7 +130,33 @@ func init() {
 						w.Item(units[i/len(c09SQLOpeners)], "sql|"+c09SQLOpeners[i%len(c09SQLOpeners)])
 					})
 				}, Eval: evalC09},
-			{Name: "html-families", Space: "12 openers x units over 33 HTML symbols/atoms ^<=2 (quick) / <=3 (thorough) x {4K,16K,64K}", Share: 1,
+			{Name: "html-families-with-tail", Space: "14 openers x units over 33 HTML symbols ^<=1 (quick) / <=2 (thorough) x 5 tails (half of the length is the repeated unit, half a run of blanks / NULs / letters, or one closing '>')", Share: 1,
+				Run: func(w *fw.W) {
+					units := alpha.Units(c09HTMLSyms, w.Pick(1, 2))
+					var items [][2]string
+					for _, u := range units {
+						for _, o := range c09HTMLOpeners {
+							for _, t := range c09Tails[1:] {
+								items = append(items, [2]string{u, "html|" + o + "\x01" + t})
+							}
+						}
+					}
+					w.Each(len(items), func(i int) { w.Item(items[i][0], items[i][1]) })
+				}, Eval: evalC09},
+			{Name: "sql-families-with-tail", Space: "10 openers x units over 47 SQL symbols ^<=1 (quick) / <=2 (thorough) x 5 tails", Share: 1,
+				Run: func(w *fw.W) {
+					units := alpha.Units(c09SQLSyms, w.Pick(1, 2))
+					var items [][2]string
+					for _, u := range units {
+						for _, o := range c09SQLOpeners {
+							for _, t := range c09Tails[1:] {
+								items = append(items, [2]string{u, "sql|" + o + "\x01" + t})
+							}
+						}
+					}
+					w.Each(len(items), func(i int) { w.Item(items[i][0], items[i][1]) })
+				}, Eval: evalC09},
+			{Name: "html-families", Space: "14 openers x units over 33 HTML symbols/atoms ^<=2 (quick) / <=3 (thorough) x {4K,16K,64K}", Share: 1,
 				Run: func(w *fw.W) {
 					units := alpha.Units(c09HTMLSyms, w.Pick(2, 3))
 					w.Each(len(units)*len(c09HTMLOpeners), func(i int) {
